@@ -180,6 +180,13 @@ func fetchPkgEnums(pa *packages.Package) enumsMap {
 		}
 		// per the spec, only basic types may be constant
 
+		// the members of an enum are the constants declared with its type : a constant
+		// declared in another package would otherwise replace them, or not, depending
+		// on the order in which the packages are visited
+		if named.Obj().Pkg() != pa.Types {
+			continue
+		}
+
 		comment := fetchConstComment(pa, decl)
 		if strings.Contains(comment, IgnoreDeclComment) { // this value does not implies an enum
 			continue
